@@ -429,7 +429,7 @@ func cmdCheck(args []string) int {
 				br = runBounded(bs, *tier, int64(seed))
 			}
 			solverSecs += 0
-			item := map[string]interface{}{"label": "bounded", "name": bs.Name, "stands_for": bs.StandsFor, "bound": br.Bound, "cases": br.Cases, "distinct_nontrivial": br.Distinct, "samples": br.Samples, "secs": br.Secs, "test": bs.Test, "harness": "bounded/" + bs.File}
+			item := map[string]interface{}{"label": "bounded", "name": bs.Name, "stands_for": bs.StandsFor, "bound": br.Bound, "cases": br.Cases, "distinct_nontrivial": br.Distinct, "samples": br.Samples, "secs": br.Secs, "test": bs.Test, "harness": "bounded/" + bs.File, "role": bs.Role}
 			if br.Err != "" {
 				fmt.Fprintf(os.Stderr, "ENGINE ERROR: bounded stand-in %s: %s\n", bs.Name, br.Err)
 				vacuous++
@@ -477,6 +477,9 @@ func cmdCheck(args []string) int {
 	sort.Strings(as)
 	for _, b := range boundedEv {
 		m := b.(map[string]interface{})
+		if m["role"] == "cross-check" {
+			continue
+		}
 		as = append(as, fmt.Sprintf("BOUNDED, not proved: %v — checked by exhaustive runs of the real code only within: %v", m["stands_for"], m["bound"]))
 	}
 	as = append(as, "trusted base: go/parser, go/types, x/tools go/ssa builder, govc instruction semantics and VC generator, SMT solvers (z3 4.8.12, z3 5.1.0, cvc5 1.0.3)",
@@ -497,7 +500,13 @@ func cmdCheck(args []string) int {
 		"bounded_standins":         boundedEv,
 		"vacuity":                  map[string]int{"exit_covers_sat": coverSat, "exit_covers_undecided": coverUndecided, "vacuous": vacuous},
 	}
-	if len(boundedEv) > 0 {
+	deciding := 0
+	for _, b := range boundedEv {
+		if b.(map[string]interface{})["role"] != "cross-check" {
+			deciding++
+		}
+	}
+	if deciding > 0 {
 		// part of the deciding argument is a bounded run: the property is claimed at the exploration level
 		ev.Level = "exploration"
 		evals, dist := 0, 0
